@@ -51,31 +51,8 @@ func discharge(fr *FuncResult, workdir string, perOblS int, sem chan struct{}, t
 	}
 	script, obls := fr.Em.script(incrMs)
 	file := base + ".smt2"
-	os.WriteFile(file, []byte(script), 0o644)
-	sem <- struct{}{}
-	ctx, cancel := context.WithTimeout(context.Background(), time.Duration(perOblS*len(obls)+30)*time.Second)
-	out, secs := runSolver(ctx, []string{"z3-new"}, file)
-	cancel()
-	<-sem
-	var answers []string
-	for _, ln := range strings.Split(out, "\n") {
-		ln = strings.TrimSpace(ln)
-		if ln == "sat" || ln == "unsat" || ln == "unknown" || ln == "timeout" {
-			answers = append(answers, ln)
-		} else if strings.HasPrefix(ln, "(error") && !strings.Contains(ln, "model is not available") {
-			fr.Notes = append(fr.Notes, "solver error: "+ln)
-			fr.Err = "the generated SMT script is ill-formed (engine error): " + ln
-		}
-	}
-	per := secs / float64(len(obls))
 	var pending []*Obligation
-	for i, o := range obls {
-		a := "unknown"
-		if i < len(answers) {
-			a = answers[i]
-		}
-		o.Solver = "z3-new-5.1.0(incremental)"
-		o.Secs = per
+	classify := func(o *Obligation, a string) {
 		switch {
 		case o.Cover && a == "sat":
 			o.Status = "cover-ok"
@@ -86,14 +63,73 @@ func discharge(fr *FuncResult, workdir string, perOblS int, sem chan struct{}, t
 			o.Detail = "cover undecided"
 		case !o.Cover && a == "unsat":
 			o.Status = "discharged"
-			if o.Region != "" {
-				// listed finding that no longer fails: still needs the split below to say so
-				pending = append(pending, o)
-			} else if thorough {
+			if o.Region != "" || thorough {
 				pending = append(pending, o)
 			}
 		default:
 			pending = append(pending, o)
+		}
+	}
+	if len(obls) > 120 || len(script) > 800000 {
+		// large function: one sliced query per obligation, in parallel
+		var mu sync.Mutex
+		var wg0 sync.WaitGroup
+		for _, o := range obls {
+			wg0.Add(1)
+			go func(o *Obligation) {
+				defer wg0.Done()
+				f := fmt.Sprintf("%s.q%p.smt2", base, o)
+				if k := os.Getenv("GOVC_KEEPQ"); k != "" && strings.Contains(o.Name, k) {
+					os.WriteFile("/tmp/keepq.smt2", []byte(fr.Em.standalone(o, "", false)), 0o644)
+				}
+				os.WriteFile(f, []byte(fr.Em.standalone(o, "", false)), 0o644)
+				sem <- struct{}{}
+				ctx, cancel := context.WithTimeout(context.Background(), 6*time.Second)
+				out, secs := runSolver(ctx, []string{"z3-new", "-T:4"}, f)
+				cancel()
+				<-sem
+				os.Remove(f)
+				a := strings.TrimSpace(strings.SplitN(out, "\n", 2)[0])
+				mu.Lock()
+				o.Solver = "z3-new-5.1.0(sliced)"
+				o.Secs = secs
+				classify(o, a)
+				mu.Unlock()
+			}(o)
+		}
+		wg0.Wait()
+	} else {
+		os.WriteFile(file, []byte(script), 0o644)
+		sem <- struct{}{}
+		// the incremental pass gets a bounded budget; what it has not answered by
+		// then is decided one obligation at a time by the solver race below
+		budget := 45 * time.Second
+		if thorough {
+			budget = 180 * time.Second
+		}
+		ctx, cancel := context.WithTimeout(context.Background(), budget)
+		out, secs := runSolver(ctx, []string{"z3-new", fmt.Sprintf("-t:%d", incrMs)}, file)
+		cancel()
+		<-sem
+		var answers []string
+		for _, ln := range strings.Split(out, "\n") {
+			ln = strings.TrimSpace(ln)
+			if ln == "sat" || ln == "unsat" || ln == "unknown" || ln == "timeout" {
+				answers = append(answers, ln)
+			} else if strings.HasPrefix(ln, "(error") && !strings.Contains(ln, "model is not available") {
+				fr.Notes = append(fr.Notes, "solver error: "+ln)
+				fr.Err = "the generated SMT script is ill-formed (engine error): " + ln
+			}
+		}
+		per := secs / float64(len(obls))
+		for i, o := range obls {
+			a := "unknown"
+			if i < len(answers) {
+				a = answers[i]
+			}
+			o.Solver = "z3-new-5.1.0(incremental)"
+			o.Secs = per
+			classify(o, a)
 		}
 	}
 	// second stage: standalone, three solvers in a race
